@@ -550,8 +550,7 @@ def _query_parameters(r, v, out, what):
         out["values"], out["value_names"] = _read_values(r, v, what + ".values", bool(flags & QF_NAMES))
     out["page_size"] = r.int(what + ".page_size") if flags & QF_PAGE_SIZE else None
     out["page_size_in_bytes"] = bool(flags & QF_PAGE_SIZE_BYTES)
-    if flags & QF_PAGE_SIZE_BYTES and not flags & QF_PAGE_SIZE:
-        raise SpecError("flag-mismatch", what + ".flags", "page-size-in-bytes without a page size")
+    # (0x40000000 only qualifies <result_page_size>; without a page size it carries no field and is harmless)
     ps = None
     if flags & QF_PAGING_STATE:
         ps = r.bytes_(what + ".paging_state")
